@@ -269,6 +269,7 @@ pub fn run_program(lines: &[String], ctx: &mut Ctx) {
         ctx.prog.push(head.clone());
         ctx.outs.push("case".into());
         let body = &lines[i + 1..j];
+        crate::exec::inflight(head, body);
         match t[1] {
             "di" => di::exec_case(head, body, ctx),
             "sdi" => sdi::exec_case(head, body, ctx),
